@@ -42,7 +42,12 @@ func c10StepOracle(t c10Xf, in any) map[string]any {
 			if t.Math.Multiply != nil {
 				o["fmul"] = c10Enc(f * float64(*t.Math.Multiply))
 			}
-			o["trunc"] = int64(f)
+			if t.Math.ClampMin != nil {
+				o["ltMin"] = f < float64(*t.Math.ClampMin)
+			}
+			if t.Math.ClampMax != nil {
+				o["gtMax"] = f > float64(*t.Math.ClampMax)
+			}
 		}
 	case "match":
 		if t.Match != nil {
